@@ -6,14 +6,15 @@ Structure of the argument (DESIGN.md §6 C03):
   M-parse accept bit  =(grammar oracle on generated programs and mutants; theorems below)=  S-ebnf
 This file holds (1) the obligations over tables REGENERATED from the Go source on every run — a new
 or re-prioritised operator, a changed keyword, a changed block-end set breaks them; (2) soundness of
-the generic recogniser used as oracle (`recognise_sound`): whatever it accepts is derivable from the
-manual's grammar; (3) the grammar-level facts about the finding classes K1 (assignment targets) and
+the generic recogniser used as oracle (`oracle_sound`, proved in Proofs/Grammar.lean): whatever it accepts is
+derivable from the manual's grammar; (3) the grammar-level facts about the finding classes K1 (assignment targets) and
 the juxtaposition slice.  The unbounded theorems `parse_sound` / `parse_complete` for M-parse are NOT
 proved yet (see `partial` in the evidence): the accept bit of M-parse is compared with S-ebnf by the
 oracle on every generated case instead.
 -/
 import LuaHelper.Model.Parser
 import LuaHelper.Spec.Grammar
+import LuaHelper.Proofs.Grammar
 import LuaHelper.Gen.Lexer
 namespace LuaHelper.C03
 open LuaHelper.Lex LuaHelper.Parse LuaHelper.Grammar
@@ -71,6 +72,13 @@ theorem K1_class_witness :
     recogniseRelaxed ["Name", ",", "Name", "(", ")", "=", "Numeral", ",", "Numeral"] = true := by
   decide +kernel
 #print axioms K1_class_witness
+
+/-- SOUNDNESS OF THE ORACLE: a token string the recogniser accepts is derivable from the manual's
+    grammar (`Derives`, Spec/Grammar.lean) — for every token string, by induction on the fuel of the
+    four mutually recursive recognisers (Proofs/Grammar.lean).  So "the oracle says valid, the parser
+    reports an error" is always a disagreement with the MANUAL, never an artefact of the oracle. -/
+theorem oracle_sound (w : List String) (h : recognise w = true) : ValidChunk w := recognise_sound w h
+#print axioms oracle_sound
 
 /-- non-vacuity of the oracle: a program using most productions is accepted, a one-token deletion not -/
 theorem oracle_examples :
